@@ -181,6 +181,9 @@ def _structure(
                 k = (sig2, res_node.node_hash)
                 if k not in deps:
                     deps[k] = Edge(p, res_node.path, IndirectEdge)
+                # A loaded path is a dependency too: no call-order edge may later go from this node to it
+                node_deps[res_node.node_hash].add(sig2)
+                node_deps[res_node.node_hash].update(node_deps.get(sig2, set()))
             return [res_node]
 
     traverse(fis)
